@@ -243,10 +243,19 @@ def register(cat, simple, binary, with_scalar, _perm, _dims_subset, gen_ttm, run
 
     def gen_K_update(c, r):
         k = c.obj(r)
-        m = c.g.randrange(k.ndims)
-        return {"operands": [r, c.fresh(rand_array(c.g, (k.shape[m] * k.ncomponents,)))], "mode": m}
+        form = c.g.choice(["one", "weights", "weights_and_modes", "all"])
+        if form == "one":
+            modes = [c.g.randrange(k.ndims)]
+        elif form == "weights":
+            modes = [-1]
+        elif form == "weights_and_modes":
+            modes = [-1] + sorted(c.g.sample(range(k.ndims), c.g.randint(1, k.ndims)))
+        else:
+            modes = list(range(k.ndims))
+        need = sum(k.ncomponents if m == -1 else k.shape[m] * k.ncomponents for m in modes)
+        return {"operands": [r, c.fresh(rand_array(c.g, (need,), 0.2, 2.0))], "modes": modes}
 
-    op("K.update", "K", gen_K_update, lambda eng, ops, st: ops[0].update(st["mode"], ops[1]), inplace=True, weight=0.6)
+    op("K.update", "K", gen_K_update, lambda eng, ops, st: ops[0].update(st["modes"] if len(st["modes"]) > 1 else st["modes"][0], ops[1]), inplace=True, weight=1.2)
 
     def gen_K_from_vector(c, r):
         k = c.obj(r)
